@@ -44,12 +44,21 @@ def txt(n):
 
 
 class TreeClient(BaseClient):
+    """state = frozenset of *worlds*; a world is a frozenset of facts/flags.  Joins are unions of world sets, i.e. the
+    analysis is path-sensitive over the (small, finite) set of distinct flag combinations.
+
+    pending flags:  PSNL LPC UPK STALE DUP      facts (never pending):  DETACHED PARENT_NONE EMPTYVIEW
+    """
+    NONPENDING = ("DETACHED", "PARENT_NONE", "EMPTYVIEW", "WAS_PARENTLESS", "REMOVER_DECIDED")
+
     def __init__(self, fn, raising):
         self.fn, self.raising = fn, raising
         self.itervar = {}
         for n in ast.walk(fn):
-            if isinstance(n, ast.For) and isinstance(n.target, ast.Name):
-                self.itervar[n.target.id] = txt(n.iter)
+            if isinstance(n, ast.For):
+                for x in ast.walk(n.target):
+                    if isinstance(x, ast.Name):
+                        self.itervar[x.id] = txt(n.iter)
 
     def call_may_raise(self, call):
         f = call.func
@@ -57,68 +66,157 @@ class TreeClient(BaseClient):
         return name in self.raising
 
     def exit_loop(self, s, S_before, S_body, S_fix):
-        return (S_before or frozenset()) | (S_body if S_body is not None else frozenset()) | (S_fix or frozenset())
+        out = frozenset()
+        for x in (S_before, S_body, S_fix):
+            if x is not None:
+                out |= x
+        return out
 
     def key(self, recv):
         if isinstance(recv, ast.Name) and recv.id in self.itervar:
             return "elem:" + self.itervar[recv.id]
         return txt(recv)
 
+    # ---- branch refinement
+    def assume(self, test, branch, S):
+        out = set()
+        for w in S:
+            out |= self._assume1(test, branch, w)
+        return frozenset(out)
+
+    def _assume1(self, test, branch, w):
+        w = set(w)
+        if isinstance(test, ast.UnaryOp) and isinstance(test.op, ast.Not):
+            return self._assume1(test.operand, not branch, frozenset(w))
+        if isinstance(test, ast.BoolOp):
+            conj = isinstance(test.op, ast.And)
+            if conj == branch:   # (A and B) true  /  (A or B) false : every operand has that outcome
+                ws = {frozenset(w)}
+                for v in test.values:
+                    nxt = set()
+                    for x in ws:
+                        nxt |= self._assume1(v, branch, x)
+                    ws = nxt
+                return ws
+            return {frozenset(w)}  # disjunctive information: no refinement
+        # X._parent is None / is not None
+        if isinstance(test, ast.Compare) and len(test.ops) == 1 and isinstance(test.left, ast.Attribute) \
+                and test.left.attr in ("_parent", "parent") and isinstance(test.comparators[0], ast.Constant) \
+                and test.comparators[0].value is None:
+            is_none = isinstance(test.ops[0], ast.Is) == branch if isinstance(test.ops[0], (ast.Is, ast.IsNot)) else None
+            if is_none is True:
+                w.add(("PARENT_NONE", self.key(test.left.value)))
+            return {frozenset(w)}
+        # truthiness of rec_obj_remover(parent, child): True iff child was unlisted
+        if isinstance(test, ast.Call) and isinstance(test.func, ast.Name) and test.func.id == "rec_obj_remover" and len(test.args) >= 2:
+            if branch:
+                w.add(("UPK", self.key(test.args[1])))
+            w.add(("REMOVER_DECIDED", txt(test)))
+            return {frozenset(w)}
+        return {frozenset(w)}
+
+    # ---- statements
     def transfer(self, s, S):
-        S = set(S)
+        out = set()
+        for w in S:
+            out |= self._transfer1(s, w)
+        return frozenset(out)
+
+    def _transfer1(self, s, w):
+        worlds = [set(w)]
+
+        def each(f):
+            nonlocal worlds
+            nw = []
+            for x in worlds:
+                r = f(x)
+                nw += r if isinstance(r, list) else [r]
+            worlds = nw
+
         if isinstance(s, (ast.Assign, ast.AugAssign)):
             targets = s.targets if isinstance(s, ast.Assign) else [s.target]
             for t in targets:
                 if isinstance(t, ast.Attribute) and t.attr == "_parent":
                     k = self.key(t.value)
                     isnone = isinstance(s.value, ast.Constant) and s.value.value is None
-                    if isnone:
-                        if ("UPK", k) in S:
-                            S.discard(("UPK", k))
-                        elif ("DETACHED", k) in S:
-                            pass
+
+                    def f(S, k=k, isnone=isnone):
+                        if isnone:
+                            if ("UPK", k) in S:
+                                S.discard(("UPK", k))
+                            elif ("DETACHED", k) in S or ("PARENT_NONE", k) in S:
+                                pass
+                            else:
+                                S.add(("LPC", k))
+                            S.add(("PARENT_NONE", k))
                         else:
-                            S.add(("LPC", k))
-                    else:
-                        S.add(("PSNL", k))
+                            S.add(("PSNL", k))
+                            if ("PARENT_NONE", k) in S:
+                                S.add(("WAS_PARENTLESS", k))
+                            S.discard(("PARENT_NONE", k))
+                        return S
+                    each(f)
                 if isinstance(t, ast.Attribute) and t.attr == "_children":
-                    if isinstance(s, ast.AugAssign):
-                        S = {f for f in S if f[0] != "PSNL"}
-                    else:
-                        S = {f for f in S if f[0] != "LPC"}
-                    S.add(("STALE", txt(t.value)))
+                    def f(S, t=t):
+                        if isinstance(s, ast.AugAssign):
+                            S = {x for x in S if x[0] != "PSNL"}
+                        else:
+                            S = {x for x in S if x[0] != "LPC"}
+                        S.add(("STALE", txt(t.value)))
+                        return S
+                    each(f)
                 if isinstance(t, ast.Attribute) and t.attr in ("_sources", "_sensors", "_collections"):
-                    # constructor idiom: all lists stored empty together with _children == refreshed
                     if isinstance(s.value, ast.List) and not s.value.elts:
-                        S.add(("EMPTYVIEW", t.attr))
-                        if {("EMPTYVIEW", a) for a in ("_sources", "_sensors", "_collections")} <= S:
-                            S = {x for x in S if x[0] not in ("STALE", "EMPTYVIEW")}
+                        def f(S, t=t):
+                            S.add(("EMPTYVIEW", t.attr))
+                            if {("EMPTYVIEW", a) for a in ("_sources", "_sensors", "_collections")} <= S:
+                                S = {x for x in S if x[0] not in ("STALE", "EMPTYVIEW")}
+                            return S
+                        each(f)
         for c in ast.walk(s):
             if not isinstance(c, ast.Call):
                 continue
-            f = c.func
-            if isinstance(f, ast.Attribute):
-                if f.attr == "_update_src_and_sens":
-                    S = {x for x in S if not (x[0] == "STALE" and x[1] == txt(f.value))}
-                if f.attr in ("remove",) and isinstance(f.value, ast.Attribute) and f.value.attr == "_children" and c.args:
-                    k = self.key(c.args[0])
-                    S.add(("UPK", k))
-                    S.add(("STALE", txt(f.value.value)))
-                if f.attr in ("append", "extend", "insert") and isinstance(f.value, ast.Attribute) and f.value.attr == "_children" and c.args:
-                    k = self.key(c.args[-1])
-                    S = {x for x in S if not (x[0] == "PSNL" and x[1] == k)}
-                    S.add(("STALE", txt(f.value.value)))
-                if f.attr == "add" and not (isinstance(f.value, ast.Attribute) and f.value.attr.startswith("_")):
-                    # callee summary (verified by this very check on `add`): on normal return every argument is
-                    # parented+listed and the views of the receiver are fresh
-                    S = {x for x in S if not (x[0] == "STALE" and x[1] == txt(f.value))}
-                if f.attr == "remove" and not (isinstance(f.value, ast.Attribute) and f.value.attr == "_children"):
-                    # Collection.remove(y): on normal return y is unlisted and y._parent is None
-                    for a in c.args:
-                        S.add(("DETACHED", self.key(a)))
-            if isinstance(f, ast.Name) and f.id == "rec_obj_remover" and len(c.args) >= 2:
-                S.add(("UPK", self.key(c.args[1])))
-        return frozenset(S)
+            f_ = c.func
+            if isinstance(f_, ast.Attribute):
+                if f_.attr == "_update_src_and_sens":
+                    each(lambda S, r=txt(f_.value): {x for x in S if not (x[0] == "STALE" and x[1] == r)})
+                if f_.attr == "remove" and isinstance(f_.value, ast.Attribute) and f_.value.attr == "_children" and c.args:
+                    def f(S, k=self.key(c.args[0]), r=txt(f_.value.value)):
+                        S.add(("UPK", k)); S.add(("STALE", r)); return S
+                    each(f)
+                if f_.attr in ("append", "extend", "insert") and isinstance(f_.value, ast.Attribute) and f_.value.attr == "_children" and c.args:
+                    def f(S, k=self.key(c.args[-1]), r=txt(f_.value.value)):
+                        # listing requires the object to be listed nowhere: freshly detached, or it had no parent
+                        # (by the forest invariant) before this call set one
+                        if not (("DETACHED", k) in S or ("WAS_PARENTLESS", k) in S):
+                            S.add(("DUP", k))
+                        S = {x for x in S if not (x[0] == "PSNL" and x[1] == k)}
+                        S.add(("STALE", r))
+                        return S
+                    each(f)
+                if f_.attr == "add" and not (isinstance(f_.value, ast.Attribute) and f_.value.attr.startswith("_")):
+                    each(lambda S, r=txt(f_.value): {x for x in S if not (x[0] == "STALE" and x[1] == r)})
+                if f_.attr == "remove" and not (isinstance(f_.value, ast.Attribute) and f_.value.attr == "_children"):
+                    def f(S, args=[self.key(a) for a in c.args]):
+                        for k in args:
+                            S.add(("DETACHED", k)); S.discard(("PARENT_NONE", k))
+                        return S
+                    each(f)
+            if isinstance(f_, ast.Name) and f_.id == "rec_obj_remover" and len(c.args) >= 2:
+                k = self.key(c.args[1])
+                if any(("REMOVER_DECIDED", txt(c)) in x for x in worlds):
+                    continue  # outcome already fixed by the branch this call is the condition of
+                # result not inspected: the child may or may not have been found and unlisted
+                def f(S, k=k):
+                    a, b = set(S), set(S)
+                    a.add(("UPK", k))
+                    return [a, b]
+                each(f)
+        # remember "had no parent" at the moment a parent is set (PARENT_NONE is dropped by the store)
+        out = set()
+        for x in worlds:
+            out.add(frozenset(x))
+        return out
 
 
 def raising_functions(g: CallGraph):
@@ -164,18 +262,19 @@ def run(repo, res, tier):
         fns.append((um, "rec_obj_remover", um.funcs["rec_obj_remover"]))
     for mod, qn, fn in fns:
         cl = TreeClient(fn, raising)
-        exits, n_st = function_exits(fn, cl)
+        exits, n_st = function_exits(fn, cl, frozenset({frozenset()}))
         res.evaluations += len(exits)
         bad, seen = [], set()
-        for k, St, n in exits:
-            St = {f for f in St if f[0] not in ("DETACHED", "EMPTYVIEW")}
-            if qn == "rec_obj_remover":
-                St = {f for f in St if f[0] != "UPK"}  # by contract the caller clears the parent right after
-            if St:
-                key = (k, norm(n) if not isinstance(n, ast.FunctionDef) else "end", tuple(sorted(St)))
-                if key not in seen:
-                    seen.add(key)
-                    bad.append((k, sorted(St), n))
+        for k, worlds, n in exits:
+            for St in worlds:
+                St = {f for f in St if f[0] not in TreeClient.NONPENDING}
+                if qn == "rec_obj_remover":
+                    St = {f for f in St if f[0] != "UPK"}  # by contract the caller clears the parent of the unlisted child
+                if St:
+                    key = (k, norm(n) if not isinstance(n, ast.FunctionDef) else "end", tuple(sorted(St)))
+                    if key not in seen:
+                        seen.add(key)
+                        bad.append((k, sorted(St), n))
         res.ob(f"E1:{qn}", not bad, {"rule": "E1", "editor": qn, "exits_examined": len(exits), "pending_exits": len(bad)})
         if bad:
             kinds = sorted({f[0] for _, St, _ in bad for f in St})
